@@ -1,4 +1,4 @@
-// Command verif is the single binary behind every check: master, worker and replay modes.
+// Command c20 is the stand-alone binary of check C20 (development use).
 package main
 
 import (
